@@ -702,9 +702,24 @@ macro_rules! columns_entry {
                 },
                 "read-item(region)" => |s, v, aux| { let i = aux.push(v); s.put(aux.index(i)) },
                 "read-item(borrowed)" => |s, v, aux| s.put(<<$R as Region>::ReadItem<'_> as IntoOwned>::borrow_as(v)),
+                "PushIter(read-slice)" => |s, v, aux| {
+                    // the row as a read item of a slice region over the same cell region (not
+                    // the first item there), handed over as an iterator
+                    let mut sr = <SliceRegion<<$R as ColInner>::Inner>>::default();
+                    let _ = sr.push(v);
+                    let i = sr.push(v);
+                    s.put(PushIter(sr.index(i)))
+                },
             ]
         }
     };
+}
+/// The cell region of a columns region.
+pub trait ColInner {
+    type Inner: flatcontainer::Region;
+}
+impl<R: flatcontainer::Region, O> ColInner for ColumnsRegion<R, O> {
+    type Inner = R;
 }
 columns_entry!(EColumnsMirrorU8, "columns<mirror<u8>,optimized>", ColumnsRegion<MirrorRegion<u8>, IO>, clone: yes, serde: yes, model: yes, flags: {});
 columns_entry!(EColumnsMirrorU8Vec, "columns<mirror<u8>,vec>", ColumnsRegion<MirrorRegion<u8>, Vec<usize>>, clone: yes, serde: yes, model: yes, flags: {});
